@@ -106,7 +106,7 @@ def _hand_mcp(cfg, rc):
     width = rc.randint(1, max(1, g["max_size"] + 1))
     rows = []
     for s in range(ns):
-        k = rc.randint(1, width)
+        k = 0 if rc.random() < 0.1 else rc.randint(1, width)   # an all-padding (empty) set is legal data
         items = [rc.randint(1, ni) for _ in range(k)]
         if k >= 2 and rc.random() < 0.4:
             items[rc.randrange(1, k)] = items[0]            # duplicate item inside the set
